@@ -174,3 +174,11 @@ REWRITES = [
     Rewrite("ws_message-handler-reordered", RDV, "            log.err(e)\n            self._B.error(e)\n            raise\n",
             "            self._B.error(e)\n            log.err(e)\n            raise\n", desc="handler statements reordered"),
 ]
+
+# engine A5 and the container-kind rule of A3
+MUTANTS.append(Mutant("connector-stopped-accept-row", "src/wormhole/_dilation/connector.py", "    stopped.upon(accept, enter=stopped, outputs=[])\n", "", "C14.R4",
+                      "F11 again: the eventual accept() reaches a Connector that was stopped meanwhile"))
+MUTANTS.append(Mutant("nameplates-list-or-set", RDV, "        self._L.rx_nameplates(nids)", "        self._L.rx_nameplates(sorted(nids))", "C14.R1",
+                      "two cooperating sites: a list is handed on where a set is merged with |",
+                      also=(("src/wormhole/_input.py", "        # we get a set of nameplate id strings\n",
+                             "        # we get a set of nameplate id strings\n        if self._all_nameplates:\n            all_nameplates = all_nameplates | self._all_nameplates\n"),)))
